@@ -108,13 +108,15 @@ def scenario(ctx, p):
         args["fs"] = members[ctx.choice("arg", len(members))]
     elif call == "zone_temp":
         # zone set-points have no advertised limits: the admissible domain is what the protocol field can carry
-        j = ctx.int("j", 0, 1200) if g.n == 4 else ctx.int("j", 200, 700)
-        args["j"] = j
-        args["t"] = j / 20.0
+        D = p.get("grid", 20)
+        j = ctx.int("j", 0, 60 * D) if g.n == 4 else ctx.int("j", 10 * D, 35 * D)
+        args["j"], args["D"] = j, D
+        args["t"] = j / float(D)
     elif call == "ac_temp":
-        j = ctx.int("j", -200, 1200)              # temperature j/20: the 0.05 degC grid across and beyond the limits
-        args["j"] = j
-        args["t"] = j / 20.0
+        D = p.get("grid", 20)
+        j = ctx.int("j", -10 * D, 60 * D)         # temperature j/D: a grid across and beyond the limits
+        args["j"], args["D"] = j, D
+        args["t"] = j / float(D)
     elif call == "ac_timer_duration":
         members = list(A.AcTimerType)
         args["tt"] = members[ctx.choice("arg", 2)]
